@@ -156,6 +156,22 @@ def gen_history(rng, n_ops):
     return ops
 
 
+def directed_histories():
+    """Corpus run before the random histories: (hist_id, ops).  hist_id % 5 == 4 makes the first hole's depth table empty, so a
+    data name shared by all holes has a legal zero-length entry for that hole; the name is then removed from every hole that
+    holds values (through the workspace, through the parent, by removing the hole) and the group is re-opened."""
+    A = lambda h, n="A": ("add_data", h, n, 1)          # noqa: E731
+    out = []
+    for hid in (4, 9):
+        out.append((hid, [("add_hole",)] * 3 + [A(0), A(1), A(2), ("rm_ws", 1, "A", 0), ("rm_parent", 2, "A", 0), ("reopen",),
+                          ("set", 0, "A", 0), ("reopen",)]))
+        out.append((hid, [("add_hole",)] * 3 + [A(2), A(0), A(1), A(1, "B"), ("rm_parent", 1, "A", 0), ("rm_ws", 2, "A", 0), ("reopen",),
+                          A(1), ("rm_ws", 1, "A", 0), ("reopen",)]))
+        out.append((hid, [("add_hole",)] * 2 + [A(0), A(1), A(0, "B"), ("rm_hole_ws", 1, "A", 0), ("reopen",), ("rm_ws", 0, "B", 0), ("reopen",)]))
+        out.append((hid, [("add_hole",)] * 3 + [A(0), A(1), ("set", 1, "A", 0), ("rm_ws", 1, "A", 0), ("reopen",), A(2), ("reopen",)]))
+    return out
+
+
 def run_history(ctx: Ctx, tracer: Tracer, hist_id: int, version: float, ops, path):
     """Run one history on the real package.  Returns (driver lines, expectations, stats)."""
     from geoh5py.groups import DrillholeGroup
@@ -422,11 +438,17 @@ def run(ctx: Ctx):
     tracer.install()
     cases = []
     try:
-        for i in range(n_hist):
-            version = 2.0 if i % 2 == 0 else 2.1
-            ops = gen_history(ctx.rng, ctx.rng.randrange(8, max_ops))
+        directed = [(hid, ops, v) for hid, ops in directed_histories() for v in (2.0, 2.1)]
+        for i in range(n_hist + len(directed)):
+            if i < len(directed):
+                hist_id, ops, version = directed[i]
+                ops = [("add_hole",)] * 0 + list(ops)
+                ctx.count("directed-histories")
+            else:
+                version = 2.0 if i % 2 == 0 else 2.1
+                ops = gen_history(ctx.rng, ctx.rng.randrange(8, max_ops))
+                hist_id = ctx.rng.randrange(1 << 30)
             path = ctx.scratch / f"c04_{i}.geoh5"
-            hist_id = ctx.rng.randrange(1 << 30)
             try:
                 case, lines, expect, stats, failures, renamed = run_history(ctx, tracer, hist_id, version, ops, path)
             finally:
